@@ -371,7 +371,31 @@ def ev_env_logging(on):
     return ev
 
 
+_ENV_WARNINGS = []
+
+
+def ev_env_warnings(strict):
+    """Process environment: warnings raised as errors (-W error) / default."""
+    def ev(p, keep):
+        from mc import lib
+        while _ENV_WARNINGS:
+            _ENV_WARNINGS.pop().__exit__(None, None, None)
+        if strict:
+            cm = lib.warnings_as_errors()
+            cm.__enter__()
+            _ENV_WARNINGS.append(cm)
+        return 'warnings ' + ('raised as errors' if strict else 'default')
+    return ev
+
+
+BUF_RECOVER_ASYNC = refcodec.enc_method_frame(
+    M['Basic.RecoverAsync'], (True,), 4)[0]
+BUF_RECOVER = refcodec.enc_method_frame(M['Basic.Recover'], (True,), 4)[0]
+
+
 def env_reset():
+    while _ENV_WARNINGS:
+        _ENV_WARNINGS.pop().__exit__(None, None, None)
     while _ENV_LOGGING:
         _ENV_LOGGING.pop().__exit__(None, None, None)
 
@@ -390,6 +414,7 @@ _KEPT = {}
 
 def reset_kept():
     _KEPT.clear()
+    del _APP_CLASSES[:]
 
 
 def _poison_specs():
@@ -450,6 +475,40 @@ def ev_mid_failures(p, keep):
     from mc import corpus
     corpus.disturb_mid()
     return 'done'
+
+
+_APP_CLASSES = []
+
+
+def ev_define_application_classes(p, keep):
+    """The application defines subclasses of concrete method classes (one
+    whose constructor needs an argument), of Basic.Properties and of a
+    reply-code exception; nothing is registered anywhere."""
+    class Publish(p.commands.Basic.Publish):
+        def __init__(self, routing_key, body_hint=None):
+            super().__init__(exchange='app', routing_key=routing_key)
+
+    class Declare(p.commands.Queue.Declare):
+        pass
+
+    class Props(p.commands.Basic.Properties):
+        pass
+
+    class NotFound(p.exceptions.AMQPNotFound):
+        pass
+    _APP_CLASSES.append((Publish, Declare, Props, NotFound))
+    return [p.frame.marshal(Publish('rk'), 1).hex(),
+            p.frame.marshal(Declare(queue='app'), 1).hex()]
+
+
+def ev_unknown_method_ids(p, keep):
+    out = []
+    for ids in (b'\x00\x3c\x00\x29', b'\x00\x63\x00\x0a', b'\x03\x84\x00'
+                b'\x01', b'\xff\xff\xff\xff'):
+        payload = ids + b'\x00' * 6
+        out.append(decode(p, b'\x01\x00\x01' + len(payload).to_bytes(
+            4, 'big') + payload + b'\xce')[1])
+    return out
 
 
 def ev_copies(p, keep):
@@ -565,6 +624,11 @@ EVENTS = [
     ('env: debug logging on', ev_env_logging(True)),
     ('env: debug logging off', ev_env_logging(False)),
     ('unmarshal prefixes of 0..9 bytes', ev_short_prefixes),
+    ('env: warnings raised as errors', ev_env_warnings(True)),
+    ('env: warnings default', ev_env_warnings(False)),
+    ('unmarshal Basic.RecoverAsync (deprecated method)',
+     ev_unmarshal(BUF_RECOVER_ASYNC)),
+    ('unmarshal Basic.Recover', ev_unmarshal(BUF_RECOVER)),
     ('encode Decimal 21474836.47', lambda p, keep: p.encode.field_table(
         {'d': [A.D('21474836.47'), A.D('-1234567.89'), A.D('1E-28')]}).hex()),
     ('decode Decimal 21474836.47', lambda p, keep: c(p.decode.field_array(
@@ -578,6 +642,10 @@ EVENTS = [
     ('repair the kept objects in place and marshal', ev_repair_and_marshal),
     ('bare base classes and an application subclass', ev_bare_base_classes),
     ('deep copies and pickles of frames with table subclasses', ev_copies),
+    ('define application subclasses of method classes',
+     ev_define_application_classes),
+    ('unmarshal frames with unknown class / method ids',
+     ev_unknown_method_ids),
     # equal-but-distinct arguments (a memoised encoder conflates them)
     ('encode Decimal 1.0', lambda p, keep: p.encode.field_table(
         {'d': [A.D('1.0'), A.D('0')]}).hex()),
